@@ -432,9 +432,13 @@ Fixpoint pow2b_fuel (f : nat) (d : Z) : bool :=
 (** the denominator is a power of two *)
 Definition dyadic (d : Z) : bool := (0 <? d) && pow2b_fuel (Z.to_nat (Z.log2 d) + 1) d.
 
+Definition is_some {A} (o : option A) : bool := match o with Some _ => true | None => false end.
+
+(** float constants: the denominator is a power of two (and the exponent search of [fix_float]
+    succeeds, which the correspondence checks on every generated constant) *)
 Definition const_side (v : cval) : bool :=
   match v with
-  | CFloat _ d => dyadic d
+  | CFloat a d => dyadic d && is_some (fix_float a d)
   | CComplex e => e
   | _ => true
   end.
@@ -454,5 +458,111 @@ Definition decl_side (p : pkg) (d : decl) : bool :=
 
 Definition pkg_side (p : pkg) : bool := forallb (decl_side p) (pk_decls p).
 
+(* ------------------------------------------------------------------ *)
+(** * Agreement of a generated row with the contract, decidable form *)
+
+Definition cval_sameb (a b : cval) : bool :=
+  match a, b with
+  | CBool x, CBool y => Bool.eqb x y
+  | CString x, CString y => str_eqb x y
+  | CInt x, CInt y => x =? y
+  | CFloat n d, CFloat n' d' => req (n, d) (n', d')      (* the same rational number *)
+  | CComplex x, CComplex y => Bool.eqb x y
+  | _, _ => false
+  end.
+
+Definition gbind_sameb (a b : gbind) : bool :=
+  match a, b with
+  | GValue x, GValue y => str_eqb x y
+  | GAddr x, GAddr y => str_eqb x y
+  | GConst x, GConst y => cval_sameb x y
+  | GType x, GType y => str_eqb x y
+  | GSandbox x, GSandbox y => str_eqb x y
+  | _, _ => false
+  end.
+
+(** what the rows generated for [d] denote is what the contract prescribes for [d] *)
+Definition decl_agreeb (p : pkg) (d : decl) : bool :=
+  match y_classify p d, g_classify p d with
+  | NoC, GNo => true
+  | CVal e, GVal b => gbind_sameb (denote_val p d e) b
+  | CTyp q w, GTyp b gw => gbind_sameb (denote_typ p d q) b && Bool.eqb (is_some w) (is_some gw)
+  | _, _ => false
+  end.
+
+Definition pkg_agreeb (p : pkg) : bool := forallb (decl_agreeb p) (pk_decls p) && y_compiles p.
+
+Definition wf_pkg (p : pkg) : bool :=
+  forallb (fun d => match d_obj d with
+                    | OType _ _ (Some it) => wf_iface it
+                    | _ => true
+                    end) (pk_decls p).
+
 (** Example packages used by the refutation theorems (each replayed on the real tool by the harness). *)
 Definition ex_pkg (name ipath : str) (ds : list decl) : pkg := mkPkg name ipath ipath 23 ds.
+
+Definition ex_anchor : decl := mkDecl (s "Anchor") true (OFunc false).
+Definition ex_int_t : ty := TBase (s "int").
+Definition ex_string_t : ty := TBase (s "string").
+Definition ex_error_t : ty := TBase (s "error").
+Definition ex_meth (name : str) (ps : list param) (variadic : bool) (rs : list param) (strok : bool) : meth :=
+  mkMeth name true ps variadic rs [] strok true.
+Definition ex_iface_decl (name : str) (ms : list meth) (nemb : nat) (mset : bool) : decl :=
+  mkDecl name true (OType false false (Some (mkIface ms nemb mset))).
+
+(** const F = 0.1 *)
+Definition ex_float : pkg :=
+  ex_pkg (s "k") (s "vt/k") [ex_anchor; mkDecl (s "F") true (OConst true (CFloat 1 10))].
+(** math.Pi *)
+Definition ex_pi_num : Z := 314159265358979323846264338327950288419716939937510582097494459.
+Definition ex_pi : pkg :=
+  ex_pkg (s "math") (s "math") [mkDecl (s "Abs") true (OFunc false); mkDecl (s "Pi") true (OConst true (CFloat ex_pi_num (10 ^ 62)))].
+(** const Z = 0.1i *)
+Definition ex_complex : pkg :=
+  ex_pkg (s "k") (s "vt/k") [ex_anchor; mkDecl (s "Z") true (OConst true (CComplex false))].
+(** package log (not the standard one); func Fatal(v ...any) *)
+Definition ex_restricted : pkg :=
+  ex_pkg (s "log") (s "vt/log") [ex_anchor; mkDecl (s "Fatal") true (OFunc false)].
+(** type Visitor interface { Visit(_ int, x string) error } *)
+Definition ex_blank : pkg :=
+  ex_pkg (s "k") (s "vt/k")
+    [ex_anchor; ex_iface_decl (s "Visitor")
+       [ex_meth (s "Visit") [mkParam (s "_") ex_int_t; mkParam (s "x") ex_string_t] false [mkParam [] ex_error_t] false] 0 true].
+(** type Str interface { String(x int) (string, error) } *)
+Definition ex_string_shape : pkg :=
+  ex_pkg (s "k") (s "vt/k")
+    [ex_anchor; ex_iface_decl (s "Str")
+       [ex_meth (s "String") [mkParam (s "x") ex_int_t] false [mkParam [] ex_string_t; mkParam [] ex_error_t] false] 0 true].
+(** type Con interface { ~string; String() string } *)
+Definition ex_constraint : pkg :=
+  ex_pkg (s "k") (s "vt/k")
+    [ex_anchor; ex_iface_decl (s "Con") [ex_meth (s "String") [] false [mkParam [] ex_string_t] true] 1 false].
+(** type Empty interface{}; type Emb interface{ Empty } *)
+Definition ex_embedded_empty : pkg :=
+  ex_pkg (s "k") (s "vt/k")
+    [ex_anchor; ex_iface_decl (s "Emb") [] 1 true; ex_iface_decl (s "Empty") [] 0 true].
+(** a package of untyped numeric and string constants only *)
+Definition ex_consts_only : pkg :=
+  ex_pkg (s "k") (s "vt/k") [mkDecl (s "A") true (OConst true (CInt 1)); mkDecl (s "B") true (OConst true (CString (s "x")))].
+(** package token (not go/token) with an untyped constant *)
+Definition ex_token : pkg :=
+  ex_pkg (s "token") (s "vt/token") [ex_anchor; mkDecl (s "LowestPrec") true (OConst true (CInt 0))].
+
+(** a package inside every side condition, with one declaration of each interesting shape *)
+Definition ex_good_iface : iface :=
+  mkIface [ex_meth (s "Printf") [mkParam (s "format") ex_string_t; mkParam (s "args") (TSlice (TBase (s "interface{}")))] true
+                   [mkParam (s "n") ex_int_t; mkParam (s "err") ex_error_t] false;
+           ex_meth (s "String") [] false [mkParam [] ex_string_t] true;
+           mkMeth (s "hidden") false [mkParam [] ex_int_t] false [] [] false true] 0 true.
+Definition ex_good : pkg :=
+  ex_pkg (s "k") (s "vt/k")
+    [ex_anchor;
+     mkDecl (s "Big") true (OConst true (CInt (2 ^ 100)));
+     mkDecl (s "Gen") true (OFunc true);
+     mkDecl (s "Half") true (OConst true (CFloat 5 8));
+     mkDecl (s "Name") true (OConst true (CString (s "x")));
+     mkDecl (s "P") true (OType false false (Some ex_good_iface));
+     mkDecl (s "T") true (OType false false None);
+     mkDecl (s "Typed") true (OConst false (CBool false));
+     mkDecl (s "V") true OVar;
+     mkDecl (s "hidden") false OVar].
